@@ -65,15 +65,16 @@ def main():
             sh("git -C /repo worktree remove --force %s" % wt)
             shutil.rmtree(wt, ignore_errors=True)
     # run the checks against the change in /repo
-    rc, o = sh("git -C /repo status --porcelain")
-    if o.strip():
-        print("repo not clean"); sys.exit(2)
-    rc, o = sh("git -C /repo apply %s" % patch)
-    if rc != 0:
-        print("patch does not apply to /repo:", o); sys.exit(2)
     results = {}
     if "--no-checks" in args:
-        checks = []
+        checks = []                 # confirmation only: /repo is not touched (several of these may run side by side)
+    else:
+        rc, o = sh("git -C /repo status --porcelain")
+        if o.strip():
+            print("repo not clean"); sys.exit(2)
+        rc, o = sh("git -C /repo apply %s" % patch)
+        if rc != 0:
+            print("patch does not apply to /repo:", o); sys.exit(2)
     try:
         for c in checks:
             t0 = time.time()
@@ -82,7 +83,8 @@ def main():
             results[c] = {"exit": rc, "violations": len(viol), "wall_s": round(time.time() - t0, 1),
                           "first": viol[0] if viol else "", "tail": o.splitlines()[-2:]}
     finally:
-        sh("git -C /repo checkout -- .")
+        if "--no-checks" not in args:
+            sh("git -C /repo checkout -- .")
     report["checks"] = results
     report["detected_by_own_check"] = results.get(prop, {}).get("exit") == 1
     dst = os.path.join(V, "seeded", "%s-%s" % (prop, seed))
